@@ -6,7 +6,7 @@ namespace Tyme
 open Packed
 
 /-- one record per lunar year 0..9999 -/
-def yearRecs : List Nat := records 512 Gen.monthsChunks
+def yearRecs : List Nat := records 1024 Gen.monthsChunks
 /-- one record per term, global index 24*(y-1)+i -/
 def termRecs : List Nat := records 72 Gen.termsChunks
 
